@@ -2282,3 +2282,71 @@ mod tests {
 		}
 	}
 }
+
+#[cfg(feature = "_verif")]
+#[allow(missing_docs)]
+pub mod verif_hooks {
+	use super::*;
+	use crate::util::logger::Record;
+
+	pub struct FixedFee(pub u32);
+	impl FeeEstimator for FixedFee {
+		fn get_est_sat_per_1000_weight(&self, _t: ConfirmationTarget) -> u32 {
+			self.0
+		}
+	}
+	pub struct NoLog;
+	impl Logger for NoLog {
+		fn log(&self, _record: Record) {}
+	}
+	fn strategy(tag: u8) -> FeerateStrategy {
+		match tag {
+			0 => FeerateStrategy::RetryPrevious,
+			1 => FeerateStrategy::HighestOfPreviousOrNew,
+			_ => FeerateStrategy::ForceBump,
+		}
+	}
+
+	pub fn compute_fee_from_spent_amounts(
+		input_amounts: u64, predicted_weight: u64, estimate: u32,
+	) -> Option<(u64, u64)> {
+		let est = LowerBoundedFeeEstimator::new(FixedFee(estimate));
+		super::compute_fee_from_spent_amounts(
+			input_amounts,
+			predicted_weight,
+			ConfirmationTarget::UrgentOnChainSweep,
+			&est,
+			&NoLog,
+		)
+	}
+
+	pub fn feerate_bump(
+		predicted_weight: u64, input_amounts: u64, dust_limit_sats: u64, previous_feerate: u64,
+		strategy_tag: u8, estimate: u32,
+	) -> Option<(u64, u64)> {
+		let est = LowerBoundedFeeEstimator::new(FixedFee(estimate));
+		super::feerate_bump(
+			predicted_weight,
+			input_amounts,
+			dust_limit_sats,
+			previous_feerate,
+			&strategy(strategy_tag),
+			ConfirmationTarget::UrgentOnChainSweep,
+			&est,
+			&NoLog,
+		)
+	}
+
+	/// `compute_package_feerate` on an (input-less) package whose `feerate_previous` is given
+	pub fn compute_package_feerate(feerate_previous: u64, strategy_tag: u8, estimate: u32) -> u32 {
+		let est = LowerBoundedFeeEstimator::new(FixedFee(estimate));
+		let pkg = PackageTemplate {
+			inputs: Vec::new(),
+			malleability: PackageMalleability::Malleable(AggregationCluster::Unpinnable),
+			counterparty_spendable_height: 0,
+			feerate_previous,
+			height_timer: 0,
+		};
+		pkg.compute_package_feerate(&est, ConfirmationTarget::UrgentOnChainSweep, &strategy(strategy_tag))
+	}
+}
